@@ -144,14 +144,15 @@ def gen_round(rng, nops):
     ops = []
     for _ in range(nops):
         ops.append({'kind': rng.choice(['add', 'delete', 'same', 'other', 'touch',
-                                        'same', 'same', 'add-subtree']),
+                                        'same', 'same', 'add-subtree', 'edit-sub-dist']),
                     'pick': rng.randrange(1 << 20), 'seed': rng.randrange(1 << 30),
                     'when': rng.choice(['older', 'equal', '+1s', '+1h', '+10h', 'now',
-                                        '+1s', '+30m'])})
+                                        '+1s', '+30m', '+10ms'])})
     return ops
 
 
-WHEN = {'older': -3600, 'equal': 0, '+1s': 1, '+30m': 1800, '+1h': 3600, '+10h': 36000}
+WHEN = {'older': -3600, 'equal': 0, '+10ms': 0.01, '+1s': 1, '+30m': 1800, '+1h': 3600,
+        '+10h': 36000}
 
 
 def apply_round(rootA, rootB, ops, tprev):
@@ -206,6 +207,28 @@ def _apply_ops(rootA, rootB, ops, tprev):
                     f.write(data)
                 if mt is not None:
                     os.utime(os.path.join(r, rel), (mt, mt))
+            modified = True
+            continue
+        if k == 'edit-sub-dist':
+            # somebody else edits a DIST line of a registered sub-Manifest (same size):
+            # no file entry is affected, but the Manifest file itself has changed
+            subs = sorted(os.path.relpath(os.path.join(dp, x), rootA)
+                          for dp, dn, fn in os.walk(rootA) for x in fn
+                          if x == 'Manifest' and dp != rootA)
+            subs = [m for m in subs if b'DIST ' in open(os.path.join(rootA, m),
+                                                        'rb').read()]
+            if not subs or mt is None or mt <= tprev:
+                continue
+            mrel = subs[op['pick'] % len(subs)]
+            for r in (rootA, rootB):
+                with open(os.path.join(r, mrel), 'rb') as f:
+                    data = f.read()
+                i = data.index(b'DIST ')
+                j = data.index(b'\n', i) - 1
+                data = data[:j] + (b'0' if data[j:j + 1] != b'0' else b'1') + data[j + 1:]
+                with open(os.path.join(r, mrel), 'wb') as f:
+                    f.write(data)
+                os.utime(os.path.join(r, mrel), (mt, mt))
             modified = True
             continue
         if k == 'add-subtree':
@@ -288,6 +311,16 @@ def run_history(ctx, d, case):
     try:
         set_tz(tz)
         ctx.count('tz:' + tz)
+        if case.get('presub'):
+            # sub-directories that already hold a (so far unreferenced) Manifest with
+            # a DIST line when the tree is first created: sub-Manifests from the start
+            for r in (rootA, rootB):
+                n = 0
+                for dp, dn, fn in sorted(os.walk(r)):
+                    if dp != r and n < 2:
+                        with open(os.path.join(dp, 'Manifest'), 'w') as f:
+                            f.write('DIST pre-%d.tar 1 MD5 %s\n' % (n, 'ab' * 16))
+                        n += 1
         for r in (rootA, rootB):
             rc = cli(['create', '--hashes', hashes, '-t', r])
             if rc != 0:
@@ -400,7 +433,7 @@ def run_hist(u, ctx):
                 'future_ts': rng.choice([0, 0, 0, 0, 0, 0, 0, 3600, 86400]),
                 'past_ts': rng.choice([None, None, '2026-01-15T12:00:00Z',
                                        '2026-07-15T12:00:00Z']),
-                'use_t': rng.random() < 0.3,
+                'use_t': rng.random() < 0.3, 'presub': rng.random() < 0.4,
                 'hashes': sorted(rng.sample(mtext.supported_hashes(), rng.randint(1, 2))),
                 'rounds': [gen_round(rng, rng.randint(1, 5))
                            for _ in range(rng.randint(1, 6 if ctx.tier == 'thorough'
